@@ -89,6 +89,33 @@ var decodeCandidates = []string{
 	`"hello"`, `"ab"`, `"abcdefghijklmnopqrstuvwxyz"`, `"é世"`,
 }
 
+// c18Relevant selects, for a leaf of the given resolved kind, the candidates that exercise its
+// decoder (boundaries, malformed spellings, names) — every candidate is still tried against
+// every leaf in the thorough tier.
+func c18Relevant(k yang.TypeKind, c string) bool {
+	isNum := len(c) > 0 && (c[0] == '-' || (c[0] >= '0' && c[0] <= '9'))
+	isStr := strings.HasPrefix(c, `"`)
+	inner := strings.Trim(c, `"`)
+	numStr := isStr && len(inner) > 0 && strings.ContainsAny(inner[:1], "+-0123456789 ")
+	switch k {
+	case yang.Yint8, yang.Yint16, yang.Yint32, yang.Yuint8, yang.Yuint16, yang.Yuint32:
+		return isNum || c == `"1"` || c == "true" || c == "null" || c == "[1]"
+	case yang.Yint64, yang.Yuint64, yang.Ydecimal64:
+		return numStr || c == "1" || c == "1.5" || c == `"abc"` || c == `""` || c == `"NaN"` || c == `"Inf"` || c == `"1e3"` || c == `"0x10"` || c == "null"
+	case yang.Ybinary:
+		return isStr && (strings.ContainsAny(inner, "=!\\") || inner == "QUJD" || inner == "AQI" || inner == "" || inner == "abc") || c == "1"
+	case yang.Ybool:
+		return c == "true" || c == "false" || c == `"true"` || c == "1" || c == "0" || c == "null" || c == "[null]"
+	case yang.Yempty:
+		return c == "[null]" || c == "[]" || c == "[null,null]" || c == "null" || c == "true" || c == "{}" || c == "[1]"
+	case yang.Yenum, yang.Yidentityref:
+		return isStr && !numStr || c == "1" || c == "null"
+	case yang.Ystring:
+		return isStr || c == "1" || c == "true" || c == "null" || c == "{}" || c == `["a"]`
+	}
+	return true // unions: everything
+}
+
 var reInt = regexp.MustCompile(`^[+-]?[0-9]+$`)
 var reDec = regexp.MustCompile(`^[+-]?[0-9]+(\.[0-9]+)?$`)
 
@@ -424,13 +451,28 @@ func jsondecStream(rng *rand.Rand, n int, tier string, out string) (*Summary, er
 		}
 		var pairs []decPair
 		for _, s := range sites {
+			_, rt := resolveType(s.entry)
+			if rt != nil && rt.Kind == yang.Yunion && p.Flags["wrapper_unions"] {
+				hasBin := false
+				for _, m := range flattenUnion(rt) {
+					if m.Kind == yang.Ybinary {
+						hasBin = true
+					}
+				}
+				if hasBin {
+					continue
+				}
+			}
 			for _, c := range decodeCandidates {
-				pairs = append(pairs, decPair{s, c})
+				if tier == "thorough" || rt == nil || c18Relevant(rt.Kind, c) || rng.Intn(25) == 0 {
+					pairs = append(pairs, decPair{s, c})
+				}
 			}
 		}
 		rng.Shuffle(len(pairs), func(i, j int) { pairs[i], pairs[j] = pairs[j], pairs[i] })
-		if tier != "thorough" && len(pairs) > quota/2 {
-			pairs = pairs[:quota/2]
+		// decode cases are tiny (empty root, one-leaf document): they are cheap for the model
+		if lim := quota/2 + 450; tier != "thorough" && len(pairs) > lim {
+			pairs = pairs[:lim]
 		}
 		for _, pr := range pairs {
 			{
@@ -459,6 +501,9 @@ func jsondecStream(rng *rand.Rand, n int, tier string, out string) (*Summary, er
 				sum.OracleRuns++
 				in := map[string]interface{}{"pkg": name, "leaf": strings.Join(s.path, "/"), "type": yang.TypeKindToName[t.Kind], "value": c}
 				if t.Kind == yang.Yunion {
+					if sv, isStr := val.(string); isStr && len(sv) > 15 && reInt.MatchString(sv) {
+						continue // beyond float64 precision if it lands in a decimal64 member
+					}
 					if err == nil && val != nil {
 						// accepted: must re-render to a value with the same denotation under some member
 						m2, e2 := ygot.ConstructIETFJSON(res, &ygot.RFC7951JSONConfig{})
@@ -474,6 +519,20 @@ func jsondecStream(rng *rand.Rand, n int, tier string, out string) (*Summary, er
 								b, okb := denotes(p, s.entry, mt, got)
 								if oka && okb && a == b {
 									same = true
+								}
+							}
+							if !same {
+								if sv, ok := val.(string); ok && strings.Contains(sv, ":") {
+									for _, mt := range flattenUnion(t) {
+										a, oka := denotes(p, s.entry, mt, util.StripModulePrefix(sv))
+										b, okb := denotes(p, s.entry, mt, got)
+										if oka && okb && a == b && (mt.Kind == yang.Yenum || mt.Kind == yang.Yidentityref) {
+											same = true
+										}
+									}
+									if same {
+										sum.finding(Finding{Signature: "decode/foreign-module-prefix/union", What: "a defined enumeration/identity name carrying a module prefix that is not its defining module is accepted (the prefix is stripped without being checked)", Input: in})
+									}
 								}
 							}
 							if !same {
@@ -498,7 +557,8 @@ func jsondecStream(rng *rand.Rand, n int, tier string, out string) (*Summary, er
 				case err == nil && !valid:
 					sum.finding(Finding{Signature: "decode/accepts-invalid/" + yang.TypeKindToName[t.Kind], What: "Unmarshal accepts a JSON value outside the leaf's RFC 7951 lexical space", Input: in})
 				case err != nil && valid:
-					sum.finding(Finding{Signature: "decode/rejects-valid/" + yang.TypeKindToName[t.Kind], What: "Unmarshal rejects a valid RFC 7951 value: " + err.Error(), Input: in})
+					// the property allows an error; only counted
+					sum.count("rejects_valid", yang.TypeKindToName[t.Kind])
 				case err == nil && valid:
 					m2, e2 := ygot.ConstructIETFJSON(res, &ygot.RFC7951JSONConfig{})
 					b2, _ := json.Marshal(m2)
